@@ -340,7 +340,17 @@ func discover(maxPaths int) []exInfo {
 
 // ---------------------------------------------------------------- jobs
 
-var variants = []string{"valid", "empty", "half", "flip"}
+var variantsQuick = []string{"valid", "empty", "half", "flip"}
+
+// the thorough tier adds more truncation points and more flipped bits
+var variantsThorough = []string{"valid", "empty", "half", "flip", "quarter", "threequarters", "flipfirst", "fliplast"}
+
+func variantsFor(thorough bool) []string {
+	if thorough {
+		return variantsThorough
+	}
+	return variantsQuick
+}
 
 type scanJob struct {
 	Ex      string `json:"ex"`      // extractor whose files make up the tree, or "*" for all at once
@@ -381,7 +391,8 @@ func groupCaps(group, root string) *plugin.Capabilities {
 	return c
 }
 
-func scanJobs(infos []exInfo) []scanJob {
+func scanJobs(infos []exInfo, thorough bool) []scanJob {
+	variants := variantsFor(thorough)
 	var out []scanJob
 	for _, root := range []string{"real", "virtual"} {
 		for _, v := range variants {
@@ -414,6 +425,20 @@ func variantBytes(b []byte, v string) []byte {
 		return nil
 	case "half":
 		return b[:len(b)/2]
+	case "quarter":
+		return b[:len(b)/4]
+	case "threequarters":
+		return b[:len(b)*3/4]
+	case "flipfirst", "fliplast":
+		c := append([]byte(nil), b...)
+		if len(c) > 0 {
+			i := 0
+			if v == "fliplast" {
+				i = len(c) - 1
+			}
+			c[i] ^= 0x10
+		}
+		return c
 	case "flip":
 		c := append([]byte(nil), b...)
 		if len(c) > 0 {
@@ -575,7 +600,7 @@ func scanClasses(chs []change) (classes []string, what string) {
 		}
 		set[area+"-"+k] = true
 		if len(ws) < 4 {
-			ws = append(ws, ch.String())
+			ws = append(ws, strings.ReplaceAll(ch.String(), chain+"/", ""))
 		}
 	}
 	for k := range set {
